@@ -638,8 +638,51 @@ def m_lower(ex, self, args, kw):
 
 @method("str", "format")
 def m_format(ex, self, args, kw):
-    if all(isinstance(a, (int, float, str)) for a in args):
-        return self.format(*args)
+    if all(isinstance(a, (int, float, str)) for a in args) and all(isinstance(a, (int, float, str)) for a in kw.values()):
+        try:
+            return self.format(*args, **dict(kw))
+        except (IndexError, KeyError, ValueError) as e:
+            raise SymRaise(type(e).__name__, str(e))
     if self in ("{:.3}",) and len(args) == 1:
         return fmt_value(ex, args[0], ".3")
-    raise Unsupported("str.format with symbolic arguments")
+    # the general case: the literal pieces and the formatted fields in order, exactly as the f-string with the same fields
+    # (plain positional / numbered / named fields, optional conversion and a literal format spec)
+    import string
+    parts, auto = [], 0
+    args = list(args)
+    for lit, field, spec, conv in string.Formatter().parse(self):
+        if lit:
+            parts.append(lit)
+        if field is None:
+            continue
+        if spec and ("{" in spec):
+            raise Unsupported("str.format with a nested format spec")
+        if field == "":
+            if auto is None:
+                raise SymRaise("ValueError", "cannot switch from manual field specification to automatic field numbering")
+            key, auto = auto, auto + 1
+        elif field.isdigit():
+            key, auto = int(field), None if auto in (0, None) else auto
+        elif field.isidentifier():
+            key = field
+        else:
+            raise Unsupported(f"str.format field '{field}'")
+        if isinstance(key, int):
+            if key >= len(args):
+                raise SymRaise("IndexError", "Replacement index out of range for positional args tuple")
+            val = args[key]
+        else:
+            if key not in kw:
+                raise SymRaise("KeyError", key)
+            val = kw[key]
+        parts.append(fmt_value(ex, val, spec or None, {"r": 114, "s": 115, "a": 97}.get(conv, -1)))
+    return sconcat(ex, parts)
+
+
+@builtin("format")
+def bi_format(ex, args, kw):
+    """format(value[, spec]) == f'{value:spec}'"""
+    spec = args[1] if len(args) > 1 else None
+    if spec is not None and not isinstance(spec, str):
+        raise Unsupported("format() with a symbolic spec")
+    return fmt_value(ex, args[0], spec or None)
